@@ -473,4 +473,49 @@ Proof.
   apply G; [auto | intros x [] | intros x []].
 Qed.
 
+(* an invariant of the expanded dependencies: whatever holds of the non-persistable original
+   edges and is inherited along the edges of memos holds of every expanded dependency *)
+Section VisInv.
+Variable P : qkey -> Prop.
+Hypothesis Pstep : forall g m g2, P g -> mm g = Some m -> In (EQ g2) (m_edges m) -> P g2.
+
+Lemma collect_vis fuel : forall e out vis,
+  (forall g, e = EQ g -> P g) -> (forall g, In (EQ g) vis -> P g) ->
+  forall g, In (EQ g) (snd (collect mm fuel e (out, vis))) -> P g.
+Proof.
+  induction fuel as [|fuel IH]; intros e out vis He Hv g Hg; [apply Hv; exact Hg|].
+  cbn [collect fst snd] in Hg. destruct e as [i|g0]; [apply Hv; exact Hg|].
+  destruct (mm g0) as [m|] eqn:Hm0; [|apply Hv; exact Hg].
+  assert (G : forall es acc, (forall g2, In (EQ g2) es -> P g2) -> (forall g, In (EQ g) (snd acc) -> P g) ->
+            forall g, In (EQ g) (snd (fold_left (fun acc e2 =>
+               if mem_edge e2 (snd acc) then acc else if mem_edge e2 (fst acc) then acc
+               else collect mm fuel e2 acc) es acc)) -> P g).
+  { induction es as [|e2 es IHes]; intros acc Hes Ha g1 Hg1; [apply Ha; exact Hg1|].
+    cbn [fold_left] in Hg1. revert Hg1. apply IHes; [intros g2 Hg2; apply Hes; now right|].
+    destruct (mem_edge e2 (snd acc)); [exact Ha|]. destruct (mem_edge e2 (fst acc)); [exact Ha|].
+    destruct acc as [o v]. apply IH; [|exact Ha].
+    intros g2 ->. apply Hes. now left. }
+  apply (G (m_edges m) (out, EQ g0 :: vis)); [| |exact Hg].
+  - intros g2 Hg2. apply (Pstep g0 m g2 (He g0 eq_refl) Hm0 Hg2).
+  - intros g1 [E0 | Hg1]; [injection E0 as <-; apply He; reflexivity | apply Hv; exact Hg1].
+Qed.
+
+Theorem flatten_vis_inv fuel edges :
+  (forall g, In (EQ g) edges -> pfam (fst g) = false -> P g) ->
+  forall g, In (EQ g) (snd (flatten_full pfam mm fuel edges)) -> P g.
+Proof.
+  intros Htop. unfold flatten_full.
+  assert (G : forall es acc, (forall e, In e es -> In e edges) -> (forall g, In (EQ g) (snd acc) -> P g) ->
+            forall g, In (EQ g) (snd (fold_left (flatten_step pfam mm fuel) es acc)) -> P g).
+  { induction es as [|e es IHes]; intros acc Hes Ha g Hg; [apply Ha; exact Hg|].
+    cbn [fold_left] in Hg. revert Hg. apply IHes; [intros x Hx; apply Hes; now right|].
+    unfold flatten_step. destruct e as [i|q]; [exact Ha|].
+    destruct (pfam (fst q)) eqn:Hp; [exact Ha|].
+    destruct acc as [o v]. apply collect_vis; [|exact Ha].
+    intros g0 E0. injection E0 as <-. apply Htop; [apply Hes; now left | exact Hp]. }
+  apply G; [auto | intros g []].
+Qed.
+
+End VisInv.
+
 End Origin.
